@@ -1,5 +1,11 @@
 package main
 
+import (
+	"go/token"
+
+	"golang.org/x/tools/go/ssa"
+)
+
 func init() {
 	register("C01", "Decided: the hand-over points an accepted request passes through; if one of them can drop the request on some path the request is lost for the fault sequence driving that path (safety half of the property). R-C01-1 accepted => enqueued; R-C01-2 the wake-up of the task goroutine cannot be lost; R-C01-3 the task never discards a QoS>=1 request; R-C01-4 a failed request's handle is queued; R-C01-5 every failure after registration is retryable; R-C01-6 the handle re-issues this request on the client it is given; R-C01-7 Retry keeps what it does not complete; R-C01-8 the reconnect loop resumes the queue on every new connection and stops only on request (context done, Disconnect, graceful end). Not decided: that a reconnect eventually happens and the broker answers (liveness), Disconnect, process crash.", checkC01)
 }
@@ -23,6 +29,7 @@ func checkC01(r *Run) {
 	c.ruleAcceptedEnqueued(r1)
 	c.ruleWakeup(r2)
 	c.ruleTaskNeverDiscards(r3)
+	c.ruleDequeuedTaskRuns(r3)
 	c.ruleFailedKept(r4, nil)
 	c.ruleReconnectResumes(r8)
 	if m, _ := c.reconnModel(); m != nil {
@@ -32,4 +39,75 @@ func checkC01(r *Run) {
 	c.ruleWrapKeepsHandle(r5)
 	c.ruleTaskContext(r4)
 	c.ruleLoopOutlivesConnectCtx(r8)
+}
+
+// ruleDequeuedTaskRuns (R-C01-3, task goroutine side): a task leaves the task queue only by being popped from the front,
+// and the popped task is executed on every path before the goroutine pops again or ends. A queue that is emptied or
+// swapped out as a whole, or a pop whose element is not run on some path, loses accepted requests.
+func (c *Ctx) ruleDequeuedTaskRuns(rr *RuleRep) {
+	a := c.retryAnchors()
+	if len(a.problems) > 0 {
+		return
+	}
+	g := c.taskGoroutine(a)
+	if g == nil {
+		return
+	}
+	// invocations of an element of the task queue in the task goroutine
+	calls := map[ssa.Instruction]bool{}
+	eachInstr(g, func(in ssa.Instruction) {
+		cc := callCommon(in)
+		if cc == nil || cc.IsInvoke() || cc.StaticCallee() != nil {
+			return
+		}
+		ld, ok := c.ResolveAt(cc.Value, in).(*ssa.UnOp)
+		if !ok || ld.Op != token.MUL {
+			return
+		}
+		ia, ok := ld.X.(*ssa.IndexAddr)
+		if !ok {
+			return
+		}
+		qld, ok := ia.X.(*ssa.UnOp)
+		if !ok {
+			return
+		}
+		if _, isTQ := isLoadOfField(qld, a.TaskQueue); !isTQ {
+			return
+		}
+		// (which element: R-C03-1)
+		if _, isCall := in.(*ssa.Call); isCall {
+			calls[in] = true
+		}
+	})
+	if len(calls) == 0 {
+		return // the dequeue is not in this shape (R-C03-1 reports what it cannot place)
+	}
+	for _, f := range c.Funcs {
+		for _, st := range storesToField(f, a.TaskQueue) {
+			key := FuncName(f) + "/dequeue"
+			base, elems, ok := c.appendChain(st.Val)
+			if _, isTQ := isLoadOfField(base, a.TaskQueue); ok && isTQ && len(elems) >= 1 {
+				continue // an append adds
+			}
+			pop := false
+			if sl, ok := st.Val.(*ssa.Slice); ok {
+				if _, isTQ := isLoadOfField(sl.X, a.TaskQueue); isTQ && sl.High == nil {
+					if lo, ok := constInt(sl.Low); ok && lo == 1 {
+						pop = true
+					}
+				}
+			}
+			if !pop || f != g {
+				rr.Bad(key, st.Pos(), "tasks are taken out of the task queue other than one at a time from its front by the task goroutine: whatever is removed and not run is an accepted request that is lost")
+				continue
+			}
+			w, leak := CanReach(g, st, func(in ssa.Instruction) bool { return realExit(in) || in == ssa.Instruction(st) }, PathQ{BlockInstr: func(in ssa.Instruction) bool { return calls[in] }})
+			if leak {
+				rr.Bad(key, w.Pos(), "a task popped from the queue is not executed on some path: the accepted request is dropped")
+			} else {
+				rr.OK(key, st.Pos(), "the popped task is executed on every path before the next pop")
+			}
+		}
+	}
 }
